@@ -1,13 +1,120 @@
 import Ccp.Proofs.Intf
 /-!
 # C15 — interface names round-trip and sort numerically; interface ranges expand exactly
+
+Property theorems only; helper lemmas live in `Ccp.Proofs.Intf`.
 -/
 namespace Ccp.C15
-open Ccp.Intf Ccp.Py
+open Ccp.Intf Ccp.Py Ccp.Range
 
-/-- equal interfaces have equal hashes -/
-theorem eq_hash (a b : Intf) (h : eq a b = true) : pyHash a = pyHash b := by
+/-! ## equality, hash, order -/
+
+/-- **eq_hash**: objects that compare equal have the same `__hash__` value and the same `hash()`. -/
+theorem eq_hash (a b : Intf) (h : eq a b = true) : hashRaw a = hashRaw b ∧ pyHash a = pyHash b := by
   simp only [eq, Bool.and_eq_true, beq_iff_eq] at h
-  simp [pyHash, hashRaw, h.2]
+  unfold pyHash hashRaw
+  rw [h.2]
+  exact ⟨rfl, rfl⟩
+
+/-- equality is consistent with the order: equal objects are neither `<` nor `>`, and the
+comparison does not raise. -/
+theorem eq_not_lt (a b : Intf) (h : eq a b = true) : lt a b = .ok false ∧ gt a b = .ok false := by
+  simp only [eq, Bool.and_eq_true, beq_iff_eq] at h
+  simp [lt, gt, h.2, listLt_self]
+
+/-- **same_shape_numeric_order**: two interfaces with the same optional components present never
+raise on `<`, and `<` is the lexicographic order of the *numeric* components
+(slot, card, port, subinterface, channel), the class word breaking ties. -/
+theorem same_shape_numeric_order (a b : Intf) (h : shape a = shape b) :
+    lt a b = .ok (if key a = key b then clsLt a.cls b.cls else lexLt (key a) (key b)) ∧
+    gt a b = .ok (if key b = key a then clsLt b.cls a.cls else lexLt (key b) (key a)) :=
+  ⟨lt_same_shape a b h, lt_same_shape b a h.symm⟩
+
+-- non-vacuity: Eth1/2 < Eth1/10 (numeric, not lexical), same shape
+example : (do let a ← Intf.parse "Eth1/2".toList; let b ← Intf.parse "Eth1/10".toList
+              pure (shape a == shape b, ← lt a b, ← gt a b, eq a b)).toOption
+          = some (true, true, false, false) := by decide
+-- different shapes raise
+example : (match (do let a ← Intf.parse "Eth1".toList; let b ← Intf.parse "Eth1/10".toList; lt a b) with
+           | .error e => some e | .ok _ => none) = some Err.typeError := by decide
+
+/-! ## ranges -/
+
+/-- spec: `n` is denoted by the bounds of one comma-separated part -/
+def InBounds (p : Option Nat × Option Nat) (n : Nat) : Prop :=
+  match p with
+  | (v, none) => v = some n
+  | (some lo, some hi) => lo ≤ n ∧ n ≤ hi
+  | (none, some _) => False
+
+theorem mem_expandBounds (p : Option Nat × Option Nat) (n : Nat) :
+    some n ∈ expandBounds p ↔ InBounds p n := by
+  obtain ⟨v, e⟩ := p
+  cases e with
+  | none => simp [expandBounds, InBounds, eq_comm]
+  | some hi =>
+    cases v with
+    | none => simp [expandBounds, InBounds]
+    | some lo => simp [expandBounds, InBounds, mem_upto]
+
+/-- **range_expands**: an accepted, non-empty range text has a begin object `b`, an iterated
+attribute `a` (the last numeric component of `b`) and bounds `ps`, one per comma-separated part.
+When every part carries the iterated component (`ns` are the denoted integers), the members are
+exactly `b` with that component varied over `ns`: each once, ascending in the `<` of the
+interfaces, and the ordered view `as_list()` returns them unchanged. -/
+theorem range_expands (text : Str) (d : List Intf) (h : parseRange text = .ok d) (hne : text ≠ []) :
+    ∃ b a ps, plan text = .ok (b, a, ps) ∧ a = iterAttr b ∧
+      ∀ ns, ps.flatMap expandBounds = ns.map some →
+        d = (sortedSet ns).map (vary b a) ∧
+        d.Pairwise (fun x y => lt x y = .ok true) ∧
+        (∀ m, m ∈ d ↔ ∃ n, (∃ p ∈ ps, InBounds p n) ∧ m = vary b a n) ∧
+        (asList d).2 = .ok d ∧ (asSet d).2 = .ok d := by
+  unfold parseRange at h
+  simp only [hne, if_false] at h
+  split at h
+  · cases h
+  · split at h
+    · cases h
+    · rename_i b a ps hplan
+      refine ⟨b, a, ps, hplan, ?_, ?_⟩
+      · exact plan_attr text b a ps hplan
+      · intro ns hns
+        rw [hns, List.map_map] at h
+        have hm : (ns.map (setAttr b a ∘ some)) = ns.map (vary b a) := rfl
+        rw [hm] at h
+        split at h
+        · cases h
+        · rw [sortedMembers_vary] at h
+          cases h
+          have hs := sortedSet_sorted ns
+          have hid : sortedMembers ((sortedSet ns).map (vary b a)) = .ok ((sortedSet ns).map (vary b a)) := by
+            rw [sortedMembers_vary, sortedSet_of_sorted _ hs]
+          refine ⟨rfl, pairwise_vary b a _ hs, ?_, hid, hid⟩
+          intro m
+          simp only [List.mem_map, mem_sortedSet]
+          constructor
+          · rintro ⟨n, hn, rfl⟩
+            refine ⟨n, ?_, rfl⟩
+            have : some n ∈ ps.flatMap expandBounds := by rw [hns]; exact List.mem_map_of_mem hn
+            obtain ⟨p, hp, hpn⟩ := List.mem_flatMap.mp this
+            exact ⟨p, hp, (mem_expandBounds p n).mp hpn⟩
+          · rintro ⟨n, ⟨p, hp, hpn⟩, rfl⟩
+            refine ⟨n, ?_, rfl⟩
+            have : some n ∈ ps.flatMap expandBounds :=
+              List.mem_flatMap.mpr ⟨p, hp, (mem_expandBounds p n).mpr hpn⟩
+            rw [hns] at this
+            simpa using this
+
+/-- **range_readers_pure**: every reading accessor leaves `data` as it is (whatever it is). -/
+theorem range_readers_pure (data : List Intf) :
+    (len data).1 = data ∧ (iter data).1 = data ∧ (asList data).1 = data ∧ (asSet data).1 = data ∧
+    (len data).2 = data.length ∧ (iter data).2 = data :=
+  ⟨rfl, rfl, rfl, rfl, rfl, rfl⟩
+
+-- non-vacuity: overlap, duplicate, a descending interval; members vary the port only
+example : ((parseRange "Eth1/1-3,5,2,9-7".toList).toOption.map (fun d => d.map (fun i => (i.slot, i.port))))
+          = some [(some 1, 1), (some 1, 2), (some 1, 3), (some 1, 5)] := by decide
+example : ((plan "Eth1/1-3,5,2,9-7".toList).toOption.map (fun r => (r.2.1, r.2.2)))
+          = some (Attr.port, [(some 1, some 3), (some 5, none), (some 2, none), (some 9, some 7)]) := by decide
 
 end Ccp.C15
